@@ -945,7 +945,11 @@ class ClientRequestBase:
         )
 
     def _create_writer(self, protocol: BaseProtocol) -> StreamWriter:
-        return StreamWriter(protocol, self.loop)
+        return StreamWriter(
+            protocol,
+            self.loop,
+            on_head_written=functools.partial(setattr, protocol, "idle", False),
+        )
 
     def _should_write(self, protocol: BaseProtocol) -> bool:
         return protocol.writing_paused
@@ -997,10 +1001,10 @@ class ClientRequestBase:
 
         # Nothing of this request is on the wire while the trace callbacks
         # run: bytes that arrive meanwhile were not asked for (see data_received).
+        # The writer clears the mark when it hands the head to the transport.
         protocol.idle = True
         # Buffer headers for potential coalescing with body
         await writer.write_headers(status_line, self.headers)
-        protocol.idle = False
         if protocol.transport is None:
             raise ServerDisconnectedError()
 
@@ -1472,6 +1476,7 @@ class ClientRequest(ClientRequestBase):
                 if self._traces
                 else None
             ),
+            on_head_written=functools.partial(setattr, protocol, "idle", False),
         )
 
         if self.compress:
